@@ -177,6 +177,11 @@ def run_round5(chk, rng, judge, mult, emit):
             emit(lambda: f"ZPf2New {zopt(wv)} {zmats(fv)} {zmats(pv)} {lit}", ("Parafac2Tensor", name, shp([A]), len(pv)))
             chk.count(key=("Parafac2Tensor", name, R, I), nontrivial=name not in ("ok", "w_none"))
             chk.hist("constructor", name + ":" + st)
+            if name in ("ok", "w_none") and st == "ok":
+                exp_shape = tuple((int(P.shape[0]), int(fv[2].shape[0])) for P in pv)
+                if tuple(tuple(int(d) for d in s_) for s_ in out.shape) != exp_shape or int(out.rank) != R:
+                    chk.finding("tensorly.parafac2_tensor.Parafac2Tensor", {"w": wv, "fs": fv, "Ps": pv},
+                                f"Parafac2Tensor advertises shape {out.shape}, rank {out.rank} but holds slices of shape {exp_shape}, rank {R}", "pf2_attributes")
             if name in ("ok", "w_none") and st != "ok":
                 chk.finding("tensorly.parafac2_tensor.Parafac2Tensor", {"w": wv, "fs": fv, "Ps": pv}, f"a valid PARAFAC2 tensor was refused: {out}", "pf2_constructor")
             if name not in ("ok", "w_none") and st == "ok":
@@ -281,6 +286,10 @@ def run_round5(chk, rng, judge, mult, emit):
     def tk_attr(st, out):
         if st != "ok":
             return "Err"
+        held = (tuple(int(f.shape[0]) for f in out.factors), tuple(int(f.shape[1]) for f in out.factors))
+        if (tuple(int(d) for d in out.shape), tuple(int(d) for d in out.rank)) != held or held[1] != tuple(np.asarray(out.core).shape):
+            chk.finding("tensorly.tucker_tensor.TuckerTensor", {"core": np.asarray(out.core), "fs": [np.asarray(f) for f in out.factors]},
+                        f"TuckerTensor advertises shape {out.shape}, rank {out.rank} but holds factors of shape {held[0]}, rank {held[1]}, core {np.asarray(out.core).shape}", "tucker_attributes")
         s, r = [int(d) for d in out.shape], [int(d) for d in out.rank]
         if not small([s, r]):
             return "(Ok ([99999], [99999]))"
